@@ -105,6 +105,26 @@ func famLossValue(g *Gen) {
 	if g.isT(l) && g.isT(l2) {
 		g.do(Cmd{Op: OpEquals, T: l, U: T(l2)})
 	}
+	// the same loss object over an epoch: batch sizes grow and SHRINK (a short last batch), values incl. <= 0 and >= 1
+	if g.chance(0.5) {
+		g.tag("epoch-of-batches")
+		sizes := []int{b + 1 + g.intn(3), b, 1 + g.intn(b), b + 2, 1}
+		for _, bb := range sizes[:2+g.intn(4)] {
+			dsb := []int{bb}
+			if k == 2 {
+				dsb = []int{bb, ds[1]}
+			}
+			nb := prod(dsb)
+			pvb := g.wildVals(nb)
+			if g.chance(0.5) {
+				pvb = g.probVals(nb, true)
+			}
+			pvb[g.intn(nb)] = float64(g.pick(0, -1, 1, 2))
+			pb := g.leafVals(dsb, pvb, g.chance(0.5))
+			tb := g.leafVals(dsb, g.probVals(nb, true), false)
+			g.do(Cmd{Op: OpLoss, K: k, Targs: []Targ{T(pb), T(tb)}})
+		}
+	}
 	// invalid inputs
 	if g.chance(0.3) {
 		g.tag("invalid")
@@ -249,6 +269,47 @@ func famActValue(g *Gen) {
 			dim = c.Z
 		}
 		g.do(Cmd{Op: OpAlong, K: 0, T: y, Z: dim})
+	}
+	// the same layer object on inputs of other ranks and shapes afterwards (lower rank with the same trailing
+	// dimensions, higher rank, other sizes): the result depends on the current input only
+	if g.chance(0.5) {
+		g.tag("layer-reused-on-other-shapes")
+		for j := 0; j < 1+g.intn(3); j++ {
+			var ds2 []int
+			switch g.intn(4) {
+			case 0:
+				if len(ds) > 1 {
+					ds2 = append([]int{}, ds[1+g.intn(len(ds)-1):]...)
+				} else {
+					ds2 = []int{}
+				}
+			case 1:
+				ds2 = append([]int{1 + g.intn(3)}, ds...)
+			case 2:
+				ds2 = append([]int{}, ds...)
+				if len(ds2) > 0 {
+					ds2[0] = 1 + g.intn(4)
+				}
+			default:
+				ds2 = g.shape(0, 4, 3)
+			}
+			if k == 4 {
+				dim := 0
+				if c.HasZ {
+					dim = c.Z
+				}
+				if len(ds2) <= dim || len(ds2) > 5 {
+					continue
+				}
+			}
+			if len(ds2) > 5 {
+				continue
+			}
+			x2 := g.leafVals(ds2, g.actVals(prod(ds2), k), g.chance(0.5))
+			c2 := c
+			c2.Targs = []Targ{T(x2)}
+			g.do(c2)
+		}
 	}
 	if g.chance(0.25) {
 		g.tag("invalid")
